@@ -164,6 +164,19 @@ Definition sel_version (smin smax : Z) (c : chello) : sel :=
 Definition scsv_hit (smax v : Z) (c : chello) : bool :=
   (v <? smax) && memZ FALLBACK_SCSV (ch_suites c).
 
+(* ---- client: the cipher-suite list put on the wire (_clientSendClientHello) ------------- *)
+(* cipherSuites = [TLS_EMPTY_RENEGOTIATION_INFO_SCSV] + the real suites; wireCipherSuites = that list, plus
+   TLS_FALLBACK_SCSV when settings.sendFallbackSCSV.  BOTH ClientHello constructions -- the one that offers a
+   cached session id and the one that does not -- pass wireCipherSuites. *)
+Definition RENEGO_SCSV := 255.
+Definition client_hello_suites (real : list Z) (send_scsv : bool) : list Z :=
+  RENEGO_SCSV :: real ++ (if send_scsv then [FALLBACK_SCSV] else []).
+(* session: the session id of an offered cached session, if any; fresh_sid: the id used otherwise *)
+Definition client_first_hello (ver rand fresh_sid : Z) (real : list Z) (send_scsv : bool)
+           (session : option Z) (exts : list ext) : chello :=
+  mkCH ver rand (match session with Some sid => sid | None => fresh_sid end)
+       (client_hello_suites real send_scsv) [0] exts [].
+
 (* RFC 8446 4.1.3 value for the last 8 bytes of ServerHello.random (2515-2520) *)
 Definition sentinel_for (smax v : Z) (dflt : Z) : Z :=
   if (v <? TLS12) && (smax >=? TLS12) then 1
